@@ -302,6 +302,9 @@ def c19(pid, tier, seed):
     # 2-column glyphs on even widths (no glyph straddles the right edge): rows follow the columns, not the number of characters
     fams.append(fam("geo_wide_glyphs", conf="single", W=4, H=5, D=4, BarOps=("set_message", "println", "tick", "finish_and_clear"), MsgShapes=("wide3", "wide", "a"), TextShapes=("T",),
                     Tpls=("M", "MnC"), Base=0))
+    # a line that fills its rows exactly, directly followed by an empty line (in the message, in a log text): the empty line has a row of its own
+    fams.append(fam("geo_full_then_empty", conf="single", W=3, H=8, D=4, BarOps=("set_message", "println", "tick", "finish_and_clear"), MsgShapes=("WnnA", "2WnnA", "a", "W"),
+                    TextShapes=("T", "TWnnT"), Tpls=("M", "MnC"), Base=0))
     # a field padded with blanks beyond the terminal width: the blanks wrap and count like any other column
     fams.append(fam("geo_padded", conf="single", W=3, H=6, D=4, BarOps=("set_message", "println", "tick", "finish_and_clear"), MsgShapes=("a", "W", "e"), TextShapes=("T",),
                     Tpls=("MP",), Base=0))
